@@ -1089,9 +1089,20 @@ impl LineBuffer {
                     false
                 }
             }
-            Movement::ViFirstPrint => {
-                false // TODO
-            }
+            Movement::ViFirstPrint => match self.vi_first_print_pos() {
+                Some(pos) if pos < self.pos => {
+                    let end = self.pos;
+                    self.drain(pos..end, Direction::Backward, dl);
+                    self.pos = pos;
+                    true
+                }
+                Some(pos) if pos > self.pos => {
+                    let start = self.pos;
+                    self.drain(start..pos, Direction::Forward, dl);
+                    true
+                }
+                _ => false,
+            },
             Movement::EndOfBuffer => {
                 // Kill the text from point to the end of the buffer.
                 self.kill_buffer(dl)
